@@ -191,7 +191,10 @@ def format_time_units_for_ems(units: str, calendar: str | None = DEFAULT_CALENDA
     offset_hours, offset_minutes = divmod(abs(int(offset_total)), 60)
     offset_string = f'{offset_sign}{offset_hours:02d}:{offset_minutes:02d}'
 
-    new_units = f'{period} since {offset_datetime:%Y-%m-%d %H:%M:%S} {offset_string}'
+    # The year is formatted separately, %Y does not zero pad years before 1000.
+    new_units = (
+        f'{period} since {offset_datetime.year:04d}-{offset_datetime:%m-%d %H:%M:%S} '
+        f'{offset_string}')
 
     # Do a quick check that the reference time comes out the same when parsed
     # by cftime. As we are not adjusting the time data itself, the reference
